@@ -827,3 +827,178 @@ func hyphenBeforeName(f string) bool {
 	}
 	return false
 }
+
+// RunQuoteEscape: the printer quotes characters with %q, which writes every
+// non-printable rune as an escape sequence (­, \x7f) — the parser's
+// decodeString knows \n, \r, \t and "the next character as it is" only. A %q
+// in the printer is therefore reached only for runes a printability test
+// (strconv.IsPrint / unicode.IsPrint, what %q itself uses) has let through.
+func RunQuoteEscape(w *World, r *Report, entries []string) {
+	r.Rule("quoteescape: every fmt call with a %q verb in the functions of explain.go reachable from ExplainGsub/ExplainGpos is dominated by the true side of a call of strconv.IsPrint or unicode.IsPrint: no escape sequence the parser cannot read is written")
+	var es []*ssa.Function
+	for _, e := range entries {
+		fn := w.Func(e)
+		if fn == nil {
+			r.Fatal("anchor %s does not resolve", e)
+			return
+		}
+		es = append(es, fn)
+	}
+	n := 0
+	for _, fn := range srcFuncsReachable(w, es) {
+		if fnPkgPath(fn) != builderPkg || !strings.HasSuffix(w.Fset.Position(fn.Pos()).Filename, "/explain.go") {
+			continue // the lexer's item.String is for diagnostics, not for descriptions
+		}
+		cc := controlConds(fn)
+		for _, b := range fn.Blocks {
+			for _, in := range b.Instrs {
+				call, ok := in.(*ssa.Call)
+				if !ok {
+					continue
+				}
+				callee := call.Common().StaticCallee()
+				if callee == nil || callee.Pkg == nil || callee.Pkg.Pkg.Path() != "fmt" {
+					continue
+				}
+				hasQ := false
+				for _, a := range call.Common().Args {
+					if c, ok := a.(*ssa.Const); ok && c.Value != nil && c.Value.Kind() == constant.String && strings.Contains(constant.StringVal(c.Value), "%q") {
+						hasQ = true
+					}
+				}
+				if !hasQ {
+					continue
+				}
+				n++
+				key := r.MkKey("quoteescape", fnName(fn), "%q")
+				guarded := false
+				for _, g := range guardsOf(b) {
+					// reached only through the true side of the printability test itself
+					if cl, ok := g.cond.(*ssa.Call); ok && g.then {
+						if ce := cl.Common().StaticCallee(); ce != nil && ce.Name() == "IsPrint" {
+							guarded = true
+						}
+					}
+				}
+				_ = cc
+				if guarded {
+					r.OK("quoteescape", key, w.Pos(call.Pos()), "only printable runes are quoted")
+				} else {
+					r.Fail("quoteescape", key, w.Pos(call.Pos()), "%q writes non-printable runes as \\\\u / \\\\x escape sequences, which the parser's decodeString does not understand (it knows \\\\n, \\\\r, \\\\t and takes any other escaped character literally): a font whose character map contains such a rune (a soft hyphen, say) is described by text that does not parse back", nil)
+				}
+			}
+		}
+	}
+	if n == 0 {
+		r.OK("quoteescape", r.MkKey("quoteescape", "scope", "%q verbs"), "-", "the printer does not use %q")
+	}
+}
+
+// RunRangeForm: glyph ranges (A - C -> B - D) are syntax of single
+// substitutions; the parser of ligature lookups reads one glyph list per
+// mapping. The printer shares one routine for both, so the call made for a
+// ligature subtable has to switch the range form off.
+func RunRangeForm(w *World, r *Report) {
+	r.Rule("rangeform: the call of explainSeqMappings that ExplainGsub makes inside the case for *gtab.Gsub4_1 passes the constant false for a boolean parameter on which the write of the range form (a format with two hyphens) is control-dependent: ligature lookups are never described with glyph ranges")
+	fn := w.Func("opentype/gtab/builder.ExplainGsub")
+	callee := w.Func("(*opentype/gtab/builder.explainer).explainSeqMappings")
+	if fn == nil || callee == nil {
+		r.Fatal("ExplainGsub / explainSeqMappings do not resolve")
+		return
+	}
+	key := r.MkKey("rangeform", fnName(fn), "ligature mappings")
+	// the boolean parameter that guards the range format
+	guardParam := -1
+	cc := controlConds(callee)
+	for _, b := range callee.Blocks {
+		for _, in := range b.Instrs {
+			call, ok := in.(*ssa.Call)
+			if !ok || call.Common().StaticCallee() == nil || call.Common().StaticCallee().Name() != "Fprintf" {
+				continue
+			}
+			isRange := false
+			for _, a := range call.Common().Args {
+				if c, ok := a.(*ssa.Const); ok && c.Value != nil && c.Value.Kind() == constant.String && strings.Count(constant.StringVal(c.Value), "-") >= 3 {
+					isRange = true // "%s - %s -> %s - %s"
+				}
+			}
+			if !isRange {
+				continue
+			}
+			seen := map[ssa.Value]bool{}
+			var visit func(v ssa.Value, depth int)
+			visit = func(v ssa.Value, depth int) {
+				if seen[v] || depth > 6 {
+					return
+				}
+				seen[v] = true
+				for x := range backSlice(v) {
+					if p, ok := x.(*ssa.Parameter); ok {
+						for i, q := range callee.Params {
+							if q == p {
+								if bt, ok := p.Type().Underlying().(*types.Basic); ok && bt.Kind() == types.Bool {
+									guardParam = i
+								}
+							}
+						}
+					}
+					if ph, ok := x.(*ssa.Phi); ok {
+						// a flag computed earlier: follow the conditions that decide it
+						for i := range ph.Edges {
+							for _, c := range cc[ph.Block().Preds[i]] {
+								visit(c, depth+1)
+							}
+						}
+					}
+				}
+			}
+			for _, c := range cc[b] {
+				visit(c, 0)
+			}
+		}
+	}
+	// the call in the Gsub4_1 case
+	var site *ssa.Call
+	for _, b := range fn.Blocks {
+		for _, in := range b.Instrs {
+			call, ok := in.(*ssa.Call)
+			if !ok || call.Common().StaticCallee() != callee {
+				continue
+			}
+			for d := b; d != nil; d = d.Idom() {
+				found := false
+				for _, p := range d.Preds {
+					if len(p.Instrs) == 0 {
+						continue
+					}
+					if ifi, ok := p.Instrs[len(p.Instrs)-1].(*ssa.If); ok && p.Succs[0] == d {
+						if ex, ok := ifi.Cond.(*ssa.Extract); ok {
+							if ta, ok := ex.Tuple.(*ssa.TypeAssert); ok {
+								found = true
+								if strings.HasSuffix(ta.AssertedType.String(), "gtab.Gsub4_1") {
+									site = call
+								}
+							}
+						}
+					}
+				}
+				if found {
+					break
+				}
+			}
+		}
+	}
+	switch {
+	case site == nil:
+		r.Fail("rangeform", key, w.Pos(fn.Pos()), "no call of explainSeqMappings inside the case for *gtab.Gsub4_1 found", nil)
+	case guardParam < 0:
+		r.Fail("rangeform", key, w.Pos(site.Pos()), "explainSeqMappings writes the range form without a boolean parameter that could switch it off: three or more single-component ligatures with consecutive glyphs are described as a glyph range, which the parser of ligature lookups rejects", nil)
+	default:
+		arg := site.Common().Args[guardParam]
+		if c, ok := arg.(*ssa.Const); ok && c.Value != nil && c.Value.Kind() == constant.Bool && !constant.BoolVal(c.Value) {
+			r.OK("rangeform", key, w.Pos(site.Pos()), "the range form is switched off for ligatures")
+		} else {
+			r.Fail("rangeform", key, w.Pos(site.Pos()), "the call for ligature subtables does not switch the range form off: consecutive single-component ligatures are described as a glyph range, which the parser of ligature lookups rejects", nil)
+		}
+	}
+}
